@@ -36,6 +36,19 @@ struct C15 : Harness {
             Transcript t = ex.run(p);
             Model m;
             res = cmp_model(p, t, m.run(p), true);
+            // every successful init of one kind with one back-end cap must be served by the same back end, whatever
+            // happened before it (failed allocations, other objects' life cycles)
+            if (res.empty()) {
+                std::map<std::pair<std::string, long long>, int> chosen;
+                for (size_t i = 0; i < p.size() && res.empty(); ++i) {
+                    if (t[i].be < 0 || t[i].ret != 1) continue;
+                    auto key = std::make_pair(p[i].name, p[i].geti("be", 256));
+                    if (!chosen.count(key)) chosen[key] = t[i].be;
+                    else if (chosen[key] != t[i].be)
+                        res = "op #" + std::to_string(i) + " [" + ser(p[i]).substr(0, 120) + "]: served by back end " + std::to_string(t[i].be) +
+                              " although an earlier identical init in this history got back end " + std::to_string(chosen[key]);
+                }
+            }
             if (res.empty()) {
                 ex.finalize();
                 if (skv_mon_live() != 0) res = "leak: " + std::to_string(skv_mon_live()) + " block(s) still allocated after every object has been cleaned up";
